@@ -16,12 +16,12 @@ const two256 = "1157920892373161954235709850086879078532699846656405640394575840
 const two64 = "18446744073709551616"
 
 func (vc *FnVC) cellGet(comp, ref string) string {
-	return fmt.Sprintf("(select %s %s)", vc.heapGet(comp, "(Array Int Int)"), ref)
+	return vc.readCell(comp, "(Array Int Int)", ref)
 }
 
 func (vc *FnVC) cellSet(comp, ref, val string, in *ssa.Call, what string) {
 	vc.checkWrite(comp, ref, "", what, in.Pos())
-	vc.heapSet(comp, "(Array Int Int)", fmt.Sprintf("(store %s %s %s)", vc.heapGet(comp, "(Array Int Int)"), ref, val))
+	vc.writeCell(comp, "(Array Int Int)", ref, val)
 }
 
 func (vc *FnVC) setRes(in *ssa.Call, terms ...Term) {
@@ -94,7 +94,7 @@ func (vc *FnVC) libModel(in *ssa.Call, callee *ssa.Function) bool {
 			vc.modelUsed(name)
 			return true
 		case "SafeMul":
-			p := fmt.Sprintf("(* %s %s)", a(0), a(1))
+			p := vc.arith("*", a(0), a(1))
 			vc.setRes(in, intT(vc.defineNamed("smul", "Int", fmt.Sprintf("(mod %s %s)", p, two64))), boolT(vc.defineNamed("ovf", "Bool", fmt.Sprintf("(>= %s %s)", p, two64))))
 			vc.modelUsed(name)
 			return true
@@ -113,7 +113,7 @@ func (vc *FnVC) libModel(in *ssa.Call, callee *ssa.Function) bool {
 			vc.modelUsed(name)
 			return true
 		case "Mul64":
-			p := fmt.Sprintf("(* %s %s)", a(0), a(1))
+			p := vc.arith("*", a(0), a(1))
 			vc.setRes(in, intT(vc.defineNamed("mulhi", "Int", fmt.Sprintf("(div %s %s)", p, two64))), intT(vc.defineNamed("mullo", "Int", fmt.Sprintf("(mod %s %s)", p, two64))))
 			vc.modelUsed(name)
 			return true
@@ -186,7 +186,7 @@ func (vc *FnVC) u256Method(in *ssa.Call, m string, args []ssa.Value) bool {
 	case "Add", "Sub", "Mul":
 		op := map[string]string{"Add": "+", "Sub": "-", "Mul": "*"}[m]
 		x, y := get(1), get(2)
-		set(fmt.Sprintf("(mod (%s %s %s) %s)", op, x, y, two256))
+		set(fmt.Sprintf("(mod %s %s)", vc.arith(op, x, y), two256))
 		vc.setRes(in, intT(z))
 	case "AddUint64", "SubUint64":
 		op := map[string]string{"AddUint64": "+", "SubUint64": "-"}[m]
@@ -201,7 +201,7 @@ func (vc *FnVC) u256Method(in *ssa.Call, m string, args []ssa.Value) bool {
 			raw = fmt.Sprintf("(+ %s %s)", x, y)
 			ovf = fmt.Sprintf("(>= %s %s)", raw, two256)
 		case "MulOverflow":
-			raw = fmt.Sprintf("(* %s %s)", x, y)
+			raw = vc.arith("*", x, y)
 			ovf = fmt.Sprintf("(>= %s %s)", raw, two256)
 		case "SubOverflow":
 			raw = fmt.Sprintf("(- %s %s)", x, y)
@@ -299,7 +299,7 @@ func (vc *FnVC) bigMethod(in *ssa.Call, m string, args []ssa.Value) bool {
 	case "Add", "Sub", "Mul":
 		op := map[string]string{"Add": "+", "Sub": "-", "Mul": "*"}[m]
 		x, y := get(1), get(2)
-		set(fmt.Sprintf("(%s %s %s)", op, x, y))
+		set(vc.arith(op, x, y))
 		vc.setRes(in, intT(z))
 	case "Neg":
 		set(fmt.Sprintf("(- %s)", get(1)))
